@@ -18,6 +18,9 @@ SUBS = [
     dict(name="pbkdf2", quick=dict(cases=8000, shards=3), thorough=dict(cases=40000, shards=3)),
     dict(name="crc32c", quick=dict(cases=40000, shards=2), thorough=dict(cases=300000, shards=2)),
     dict(name="long", quick=dict(cases=1, shards=1), thorough=dict(cases=8, shards=6)),
+    dict(name="giant-sha256", quick=dict(cases=1, shards=1), thorough=dict(cases=2, shards=2)),
+    dict(name="giant-sha1", quick=dict(cases=1, shards=1), thorough=dict(cases=2, shards=2)),
+    dict(name="giant-md5", quick=dict(cases=1, shards=1), thorough=dict(cases=2, shards=2)),
 ]
 LIB = {"sha256.c", "sha256_shani.c", "sha256_sse2.c", "sha1.c", "md5.c", "crc32c.c", "crc32c_sse42.c",
        "cpusupport_x86_shani.c", "cpusupport_x86_sse2.c", "cpusupport_x86_sse42.c", "cpusupport_x86_ssse3.c",
